@@ -35,12 +35,12 @@ Definition c02_judge (types commands events index : option str) : sx :=
 (* the model: (wf closed_world broken (kf flags) refs_declared report) *)
 Definition c02_model (p : proj) (zod : bool) : sx :=
   SL [sx_bool (wf p); sx_bool (closed_world p); sx_bool (broken p);
-      SL [sx_bool (kf_garbage p); sx_bool (kf_prefix p); sx_bool (kf_event_head p); sx_bool (kf_dup_listener p); sx_bool (kf_collision p zod)];
+      SL [sx_bool (kf_prefix p); sx_bool (kf_event_head p); sx_bool (kf_dup_listener p); sx_bool (kf_collision p zod)];
       sx_bool (refs_declared p);
       sx_report (gen p zod);
       SL (map SA (used p)); SL (map SA (discovered p))].
 
-(* add_types_prefix on one Rust type string: (text-level result of Pipeline.add_types_prefix,
+(* add_types_prefix on one Rust type string: (text-level result of add_types_prefix2,
    shape-level refs, refs of the parsed text-level result) for the small-scope enumeration *)
 Definition c02_atp (rust : str) (real : str) : sx :=
   let t := pts rust in
@@ -48,7 +48,7 @@ Definition c02_atp (rust : str) (real : str) : sx :=
   let parsed := match ptype (lex_module real) with
                 | Some (ty, []) => Some (flat_map (path_ref [L "types"]) (ty_refs ty))
                 | _ => None end in
-  SL [SA (add_types_prefix (Render.render t));
+  SL [SA (add_types_prefix2 (Render.render t));
       sx_opt (fun l => SL (map sx_ref l)) shape;
       sx_opt (fun l => SL (map sx_ref l)) parsed;
       sx_bool (garbage [] t)].
